@@ -133,8 +133,8 @@ fn c07_err_wrong_dim_kdtree_empty() {
     kani::cover!(true);
 }
 
-// kd-tree holding ONE point (1 x 2): attempt, 10 min cap
-// @unit class=bounded tier=thorough mem=heavy timeout=600 bound="n=1,dim=2" fns=linfa_nn::KdTreeIndex::new,linfa_nn::KdTreeIndex::k_nearest,linfa_nn::KdTreeIndex::within_range
+// kd-tree holding ONE point (1 x 2, concrete coordinates): the external crate's add + check_point (measured 11 s)
+// @unit class=bounded tier=quick mem=light timeout=300 bound="n=1,dim=2,concrete point" fns=linfa_nn::KdTreeIndex::new,linfa_nn::KdTreeIndex::k_nearest,linfa_nn::KdTreeIndex::within_range
 #[kani::proof]
 #[kani::unwind(5)]
 #[kani::stub(alloc::fmt::format, fmt_stub)]
